@@ -11,6 +11,9 @@ CONSTANTS
   EpBehs <- D_EpBehs
   UseBehs <- D_UseBehs
   MultiKinds <- D_MultiKinds
+  Vias <- D_Vias
+  CfgFlags <- D_CfgFlags
+INVARIANT NormRespected
 INVARIANT Emit
 INVARIANT RanInRegistrationOrder
 INVARIANT RanOnlyApplicable
